@@ -146,6 +146,13 @@ def tmpl? (s : String) : Option (List Desc.Cmd) :=
       pure (.group { threshold := k, keys := ks, verify := v })
     | _ => none
 
+/-- mapping items `label@network@text;…` (label a possibly negative integer, text as code points) -/
+def items? (s : String) : Option (List (Int × String × List Char)) :=
+  (s.splitOn ";").mapM fun e =>
+    match e.splitOn "@" with
+    | [b, net, t] => do pure ((← b.toInt?), net, (← cps? t))
+    | _ => none
+
 def posOut : Option (Option (Nat × Nat)) → String
   | some (some (b, i)) => s!"ok {b} {i}"
   | some none => "ok None"
@@ -271,6 +278,30 @@ def handle : List String → String
     | some tb, some pk, some last, some q, some ts =>
       match ts.mapM fun t => (match Desc.parse tb.oracle t with | .ok d => some d | .error _ => none) with
       | some ds => posOut (Desc.descWalletPositionOf env net pk ds q last)
+      | none => "unsupported"
+    | _, _, _, _, _ => "bad-op"
+  | ["w.desc.map", tbl, prv, last, q, items] =>
+    -- DescriptorWallet(Mapping[int, Descriptor]): construction with its refusals, then position_of (the LABEL is answered)
+    match table? tbl, prv? prv, last.toNat?, fromHex? q, items? items with
+    | some tb, some pk, some last, some q, some its =>
+      match its.mapM fun (b, net, t) => (match Desc.parse tb.oracle t with | .ok d => some (b, net, d) | .error _ => none) with
+      | some ds => posOut (Desc.descWalletMappingPositionOf env pk ds q last)
+      | none => "unsupported"
+    | _, _, _, _, _ => "bad-op"
+  | ["w.desc.mapspk", tbl, prv, items, b, i] =>
+    -- … then script_pub_key(branch, index): `_assert_position` (the label is one of `branches`) and the chain's script
+    match table? tbl, prv? prv, items? items, b.toInt?, i.toNat? with
+    | some tb, some pk, some its, some b, some i =>
+      match its.mapM fun (b, net, t) => (match Desc.parse tb.oracle t with | .ok d => some (b, net, d) | .error _ => none) with
+      | some ds =>
+        (match Desc.descWalletNew env pk ds with
+         | none => "err value"
+         | some (net, chains) =>
+           let labels := natsOut (chains.map (·.1))
+           if b < 0 then s!"ok {labels} err" else
+           match Desc.chainsScriptPubKey env net pk chains b.toNat i with
+           | some sc => s!"ok {labels} {toHex sc}"
+           | none => s!"ok {labels} err")
       | none => "unsupported"
     | _, _, _, _, _ => "bad-op"
   | ["scan.index", ranged, last, query, rows] =>
